@@ -222,9 +222,7 @@ Section NodeOk.
     | KContextual | KConditional | KWhileLoop | KFuncReturn | KModuleInclude => all_kept is_expr cs
     | KLetBinding => all_kept (fun c => kind_eqb (kind_of c) KEq || is_pattern c) cs
     | KDestructAssignment => all_kept (fun c => kind_eqb (kind_of c) KEq || is_pattern c) cs
-    | KSetRule =>
-        all_kept (fun c => is_expr c || kind_eqb (kind_of c) KArgs) cs &&
-        forallb (fun c => negb (kind_eqb (kind_of c) KArgs) || paren_args_only (children c)) cs
+    | KSetRule => all_kept (fun c => is_expr c || kind_eqb (kind_of c) KArgs) cs
     | KShowRule => all_kept is_expr cs
     | KHeading => all_kept (fun c => kind_eqb (kind_of c) KHeadingMarker || kind_eqb (kind_of c) KMarkup) cs
     | KImportItemPath => all_kept (fun c => kind_eqb (kind_of c) KDot || kind_eqb (kind_of c) KIdent) cs
